@@ -138,8 +138,34 @@ pub fn do_ops(ctx: &mut Ctx, ops: &[Op]) {
                 let field = a.split(' ').zip(b.split(' ')).find(|(x, y)| x != y).map(|(x, _)| x.split('=').next().unwrap_or("?").to_string()).unwrap_or("?".into());
                 ctx.violation(&format!("c18/isi/field/{}", field), "the ISI does not carry exactly the configured option (last setter wins, documented default otherwise)", &line, &b, &a);
             }
+            // … and so does the frame the connection writes for it (both size modes)
+            for compressed in [true, false] {
+                let got = encode(compressed, &i);
+                let want = isi_wire(compressed, &e);
+                if !got.is_empty() && got != want {
+                    let at = got.iter().zip(want.iter()).position(|(x, y)| x != y).unwrap_or(got.len().min(want.len()));
+                    let field = match at { 0..=3 => "header", 4..=5 => "udpport", 6..=7 => "flags", 8 => "insimver", 9 => "prefix", 10..=11 => "interval", 12..=27 => "admin", _ => "iname" };
+                    ctx.violation(&format!("c18/wire/{}", field), "the handshake frame does not carry exactly the configured option", &line, &hex(&want), &hex(&got));
+                }
+            }
         },
     }
+}
+
+/// the IS_ISI frame written out by hand from the specification's layout (size, type 1, ReqI, zero, UDPPort, Flags, InSimVer,
+/// Prefix, Interval, Admin[16] as the raw bytes of the password, IName[16]); independent of the crate's writer
+fn isi_wire(compressed: bool, e: &Isi) -> Vec<u8> {
+    let mut f = vec![if compressed { 11 } else { 44 }, 1, e.reqi.0, 0];
+    f.extend_from_slice(&e.udpport.to_le_bytes());
+    f.extend_from_slice(&e.flags.bits().to_le_bytes());
+    f.push(e.version);
+    f.push(e.prefix as u32 as u8);
+    f.extend_from_slice(&(e.interval.as_millis() as u16).to_le_bytes());
+    let mut admin = e.admin.as_bytes().to_vec(); admin.truncate(16); admin.resize(16, 0);
+    f.extend_from_slice(&admin);
+    let mut iname = insim_core::string::codepages::to_lossy_bytes(&e.iname).to_vec(); iname.truncate(16); iname.resize(16, 0);
+    f.extend_from_slice(&iname);
+    f
 }
 
 fn encode(compressed: bool, i: &Isi) -> Vec<u8> {
@@ -219,7 +245,7 @@ pub fn do_connect(ctx: &mut Ctx, ops: &[Op], asynchronous: bool) {
 }
 
 fn random_op(rng: &mut Rng) -> Op {
-    let names = ["", "a", "insim.rs", "0123456789abcdef", "exactly16chars!!", "héllo wörld", "0123456789abcdefg"];
+    let names = ["", "a", "insim.rs", "0123456789abcdef", "exactly16chars!!", "héllo wörld", "0123456789abcdefg", "пароль", "pw \u{11b}"];
     match rng.below(14) {
         0 => Op::Tcp,
         1 => Op::Udp(if rng.chance(1, 2) { None } else { Some(1024 + rng.below(60000) as u16) }),
